@@ -457,9 +457,15 @@ func (r *c04AlignRun) swap32() {
 		if c2s || i != 1 {
 			return def
 		}
-		sidMu.Lock()
-		sid := clientSid
-		sidMu.Unlock()
+		var sid uint32
+		for end := time.Now().Add(4 * time.Second); time.Now().Before(end); time.Sleep(5 * time.Millisecond) {
+			sidMu.Lock()
+			sid = clientSid
+			sidMu.Unlock()
+			if sid != 0 {
+				break
+			}
+		}
 		m := wire.Meta{Proto: wire.DataServerToClient, Timestamp: now(), SessionID: sid, Seq: 0, UnAck: 0, Window: 4096, PayloadLen: 32}
 		if v == 3 {
 			m = wire.Meta{Proto: wire.OpenSessionResponse, Timestamp: now(), SessionID: sid, Seq: 0, PayloadLen: 32}
@@ -480,7 +486,13 @@ func (r *c04AlignRun) swap32() {
 	}
 	var wg sync.WaitGroup
 	wg.Add(1)
-	go p.readAll(conn, c04AlignQuiet, c04AlignBound, &wg)
+	go func() {
+		if !c2s {
+			// the client's reader starts its silence clock when the crafted stream has been released
+			r.waitFor(c04AlignBound, func() bool { return tap.dir(0, false).fired })
+		}
+		p.readAll(conn, c04AlignQuiet, c04AlignBound, &wg)
+	}()
 	mkChunk := func() []byte {
 		m := wire.Meta{Proto: wire.OpenSessionRequest, Timestamp: now(), SessionID: forgedSid, Seq: 0, PayloadLen: 32}
 		tap.mu.Lock()
